@@ -101,7 +101,7 @@ def main():
     chk2 = Check('C09', c01.PKGS, 'pkg/secretstore',
                  ['secretstore/zz_verif_env.go', 'secretstore/zz_verif_rand.go', 'C09/zz_verif_c09_coop.go'],
                  installers=[crypto.install, crypto.install_proto, c02.install], init_pkgs=[MOD + '/pkg/errcode'], prelude_pkgname='secretstore')
-    chk2.load([P + 'VerifC09Coop', P + 'VerifC09FirstUse'])
+    chk2.load([P + 'VerifC09Coop', P + 'VerifC09FirstUse', P + 'VerifC09Replay'])
     cgrid = [(2, 1, 1, 2), (2, 1, 0, 1)] if t == 'quick' else [(2, 1, 1, 3), (2, 1, 0, 2), (2, 2, 1, 2), (3, 1, 1, 2)]
     kj = []
     for (sn, per, same, pre) in cgrid:
@@ -109,6 +109,11 @@ def main():
         for i in range(K):
             kj.append(Job(P + 'VerifC09Coop', (sn, per, same), cfg={'timeout_ms': 60000, 'unwind': 12, 'dec_as_term': True}, installers=[functools.partial(_coop_inst, pre)],
                           shard=(i, K), max_paths=400000, label='VerifC09Coop(%d,%d,%d)[pre<=%d]#%d/%d' % (sn, per, same, pre, i, K)))
+    RK = 2 if t == 'quick' else 8
+    rpre = 1 if t == 'quick' else 2
+    for i in range(RK):
+        kj.append(Job(P + 'VerifC09Replay', ((1, 1) if t == 'quick' else (2, 1)), cfg={'timeout_ms': 60000, 'unwind': 12, 'dec_as_term': True}, installers=[functools.partial(_coop_inst, rpre)],
+                      shard=(i, RK), max_paths=400000, label='VerifC09Replay[pre<=%d]#%d/%d' % (rpre, i, RK)))
     for ws in ((0,) if t == 'quick' else (0, 1)):
         fpre = 2 if t == 'quick' else 3
         FK = 4
